@@ -130,7 +130,7 @@ class History(BaseEngine):
     name = 'history'
 
     def tiers(self, prop):
-        return {'quick': 60_000, 'thorough': 6_000_000}
+        return {'quick': 60_000, 'thorough': 3_000_000}
 
     # ---------------------------------------------------------- generation
     def gen(self, prop, seed, idx, tier):
